@@ -50,7 +50,7 @@ def fresh_beartype():
         sys.modules.update(saved)
 
 
-def checker_used(hint, kind='tester'):
+def checker_used(hint, kind='tester', confkw=None):
     """Record of the generated function the public API executes *now* for ``hint`` (None if no
     generated code runs, i.e. the hint is treated as ignorable)."""
     from beartype.door import is_bearable, die_if_unbearable
@@ -65,10 +65,11 @@ def checker_used(hint, kind='tester'):
         with warnings.catch_warnings():
             warnings.simplefilter('ignore')
             try:
+                kw = {'conf': _conf(confkw)} if confkw else {}
                 if kind == 'tester':
-                    is_bearable(_Dummy(), hint)
+                    is_bearable(_Dummy(), hint, **kw)
                 else:
-                    die_if_unbearable(_Dummy(), hint)
+                    die_if_unbearable(_Dummy(), hint, **kw)
             except Exception as e:
                 exc = e
             else:
@@ -101,15 +102,24 @@ def _api():
     return is_bearable, die_if_unbearable, is_subhint, TypeHint
 
 
-def _q(hint, *objs):
+def _conf(confkw):
+    """Configuration object of the *currently imported* beartype copy (None = default)."""
+    if not confkw:
+        return None
+    from .grammar import make_conf
+    return make_conf(confkw)
+
+
+def _q(hint, *objs, confkw=None):
     is_bearable, die_if_unbearable, is_subhint, TypeHint = _api()
+    kw = {'conf': _conf(confkw)} if confkw else {}
     for o in objs or (1, 'a', None, [1], ['a']):
         try:
-            is_bearable(o, hint)
+            is_bearable(o, hint, **kw)
         except Exception:
             pass
         try:
-            die_if_unbearable(o, hint)
+            die_if_unbearable(o, hint, **kw)
         except Exception:
             pass
     try:
@@ -148,6 +158,40 @@ def s_class_redefined(rng):
     kind = rng.choice([List, Optional, Set])
     mk = (lambda c: kind[c])
     return {'target': mk(d2), 'old': mk(d1)}, lambda o: _q(o['old'], uc.UA(), [uc.UA()], uc.UC(), [uc.UC()])
+
+
+SAME_REPR_SHAPES = [
+    ('list[X]', lambda X: list[X]), ('set[X]', lambda X: set[X]), ('dict[str,X]', lambda X: dict[str, X]),
+    ('tuple[X,...]', lambda X: tuple[X, ...]), ('tuple[X,int]', lambda X: tuple[X, int]), ('X|None', lambda X: X | None),
+    ('list[X]|None', lambda X: list[X] | None), ('int|list[X]', lambda X: int | list[X]), ('dict[str,list[X]]', lambda X: dict[str, list[X]]),
+    ('type[X]', lambda X: type[X]), ('frozenset[X]', lambda X: frozenset[X]),
+    ('List[X]', lambda X: List[X]), ('Optional[X]', lambda X: Optional[X]), ('Dict[str,X]', lambda X: Dict[str, X]),
+    ('Union[X,int]', lambda X: Union[X, int]), ('Tuple[X,...]', lambda X: Tuple[X, ...]),
+]
+
+
+def s_same_repr(rng):
+    """Two different hints with one repr(): same-named classes (as produced by a class factory, a
+    reloaded module or two function bodies), same-named NewTypes and same-named TypeVars, inside
+    PEP 585 / PEP 604 / typing spellings.  The first is asked, the second is the target."""
+    import typing
+    kind = rng.choice(['class', 'class', 'newtype', 'typevar'])
+    if kind == 'class':
+        x1, x2 = _abc('Twin', uc.UA), _abc('Twin', rng.choice([uc.UC, int, str]))
+    elif kind == 'newtype':
+        x1, x2 = typing.NewType('Twin', int), typing.NewType('Twin', rng.choice([str, uc.UA]))
+    else:
+        x1, x2 = typing.TypeVar('Twin', bound=int), typing.TypeVar('Twin', bound=rng.choice([str, uc.UA]))
+    if rng.random() < 0.5:
+        x1, x2 = x2, x1
+    name, mk = rng.choice(SAME_REPR_SHAPES)
+    if kind != 'class' and name == 'type[X]':
+        name, mk = SAME_REPR_SHAPES[0]
+    old, target = mk(x1), mk(x2)
+
+    def hist(o):
+        _q(old, uc.UA(), [uc.UA()], 1, [1], 'a', ['a'], {'a': 1}, None)
+    return {'target': target, 'note': f'{name} over two {kind} objects named Twin'}, hist
 
 
 def s_id_reuse(rng):
@@ -253,15 +297,89 @@ def s_failing_hint_first(rng):
     return {'target': List[int]}, hist
 
 
-SCRIPTS = [s_union_order, s_literal_lookalike, s_literal_lookalike2, s_annotated_meta, s_class_redefined, s_id_reuse,
+HIST_CONFS = [{}, {}, {'is_random': False}, {'is_pep484_tower': True}, {'strategy': 'On'},
+              {'hint_overrides': [['int', 'int|str']]}, {'hint_overrides': [['str', 'str|bytes']]},
+              {'hint_overrides': [['float', 'float|int']]}, {'violation_type': 'VerifError'},
+              {'is_random': False, 'is_pep484_tower': True}]
+
+
+def _spellings(name, h):
+    """Look-alikes of a hint: other spellings / orders / neighbours that compare or hash alike."""
+    import typing
+    out = []
+    origin, args = typing.get_origin(h), typing.get_args(h)
+    if origin is Union and len(args) >= 2:
+        out.append(Union[tuple(reversed(args))])
+        out.append(Optional[h])
+    if origin in (list, set, frozenset, tuple, dict, type) and args:
+        try:
+            out.append(origin[args if len(args) != 1 else args[0]])      # PEP 585 spelling
+        except Exception:
+            pass
+    if origin is list and args:
+        out += [List[Optional[args[0]]], Tuple[args[0], ...], typing.Sequence[args[0]]]
+    if origin is Literal:
+        flip = {True: 1, 1: True, False: 0, 0: False}
+        out.append(Literal[tuple(flip.get(a, a) if type(a) in (bool, int) else a for a in args)])
+    return out
+
+
+def s_grammar_conf_mix(rng):
+    """A target from the hint grammar under one configuration, after look-alike hints (other
+    spellings, member orders, neighbours sharing its children) and the target itself were asked
+    under other configurations."""
+    from . import grammar
+    pool = [(n, h) for n, h in grammar.hints_depth1() + grammar.special_hints() + grammar.hints_depth2_curated()
+            if 'Annotated' not in n and 'Callable' not in n and 'Any' not in n]
+    name, target = rng.choice(pool)
+    tkw = rng.choice(HIST_CONFS)
+    near = _spellings(name, target)
+    # neighbours: same first token (constructor) or sharing the argument text
+    head = name.split('[')[0]
+    tail = name[len(head):]
+    near += [h for n, h in rng.sample(pool, 60) if n.split('[')[0] == head or (tail and n.endswith(tail))][:4]
+    hist_plan = [(h, rng.choice(HIST_CONFS)) for h in near] + [(target, c) for c in rng.sample(HIST_CONFS, 3) if c != tkw]
+    rng.shuffle(hist_plan)
+
+    def hist(o):
+        for h, ckw in hist_plan:
+            _q(h, confkw=ckw)
+    return {'target': target, 'confkw': tkw, 'note': f'{name} under {tkw} after {len(hist_plan)} look-alike queries'}, hist
+
+
+def s_conf_lookalikes(rng):
+    """The same hint under configurations that differ only in one option (and under equal
+    configurations built twice): the memo key must include every option that changes the code."""
+    from . import grammar
+    fam = [List[float], Optional[float], Dict[str, float], Tuple[complex, ...], List[int], Union[int, str], Set[str],
+           List[List[int]], Dict[int, List[str]], Tuple[int, str], Literal[1, 'a']]
+    target = rng.choice(fam)
+    tkw = rng.choice(HIST_CONFS[2:])
+    others = [c for c in HIST_CONFS if c != tkw]
+
+    def hist(o):
+        for ckw in others:
+            _q(target, confkw=ckw)
+        _q(target, confkw=dict(tkw))
+    return {'target': target, 'confkw': tkw, 'note': f'{target} under {tkw} after every other configuration'}, hist
+
+
+SCRIPTS = [s_grammar_conf_mix, s_conf_lookalikes, s_same_repr, s_union_order, s_literal_lookalike, s_literal_lookalike2, s_annotated_meta, s_class_redefined, s_id_reuse,
            s_clear_caches, s_failing_forward_ref, s_similar_containers, s_failing_hint_first,
            s_string_ref_rebound, s_string_ref_class_rebound]
 
 
 def cases(tier, seed):
     out = []
-    reps = 2 if tier == 'quick' else 16
     for sc in SCRIPTS:
+        if sc is s_grammar_conf_mix:
+            reps = 12 if tier == 'quick' else 160
+        elif sc is s_conf_lookalikes:
+            reps = 6 if tier == 'quick' else 40
+        elif sc is s_same_repr:
+            reps = 16 if tier == 'quick' else 200
+        else:
+            reps = 2 if tier == 'quick' else 16
         for k in range(reps):
             name = f'{sc.__name__}#{k}'
             out.append((name, {'script': sc.__name__, 'k': k}, {}, {'gen': 'c14', 'script': sc.__name__, 'k': k, 'seed': seed}))
@@ -278,6 +396,7 @@ def run_case(prop, name, spec, confkw, tier, src):
         objs, hist = sc(rng)
         hist(objs)
         target = objs['target']
+        tkw = objs.get('confkw') or {}
         if objs.get('needs_late'):
             out.obligations += 1
             if objs.get('first') in (None, 'no exception') or 'ForwardRef' not in str(objs.get('first')):
@@ -285,29 +404,32 @@ def run_case(prop, name, spec, confkw, tier, src):
             else:
                 out.discharged += 1
         try:
-            node = refsem.parse(target) if not _has_str(target) else refsem.Node('any')
+            from .grammar import OVERRIDE_HINTS
+            ov = {OVERRIDE_HINTS[a]: OVERRIDE_HINTS[b] for a, b in tkw.get('hint_overrides', [])} or None
+            node = (refsem.parse(target, tower=bool(tkw.get('is_pep484_tower')), overrides=ov)
+                    if not _has_str(target) else refsem.Node('any'))
         except Unsupported:
             node = refsem.Node('any')
         for kind in ('tester', 'raiser'):
-            rec_h, exc_h = checker_used(target, kind)
+            rec_h, exc_h = checker_used(target, kind, tkw)
             first = None
             if rec_h is not None:
                 ga = Generated()
-                ga.hint, ga.confkw = target, {}
+                ga.hint, ga.confkw = target, tkw
                 setattr(ga, kind, rec_h)
                 first = Encoding(ga, 3, node=node)
             # the first-time checker is generated *and encoded* inside the fresh copy of beartype:
             # its forward-reference proxies resolve lazily and must do so against their own copy
             second = None
             with fresh_beartype():
-                rec_f, exc_f = checker_used(target, kind)
+                rec_f, exc_f = checker_used(target, kind, tkw)
                 if rec_f is not None and first is not None:
                     gb = Generated()
-                    gb.hint, gb.confkw = target, {}
+                    gb.hint, gb.confkw = target, tkw
                     setattr(gb, kind, rec_f)
                     second = Encoding(gb, None, node=node, share=first)
             out.obligations += 1
-            if exc_f is not None and 'Violation' not in type(exc_f).__name__:
+            if exc_f is not None and not _is_violation(exc_f):
                 out.inconclusive.append(f'{kind}: a fresh beartype cannot answer the target query at all '
                                         f'({type(exc_f).__name__}): the script is vacuous')
                 continue
@@ -315,7 +437,7 @@ def run_case(prop, name, spec, confkw, tier, src):
                 out.findings.append(_finding(name, src, f'{kind}: after the history {"no" if rec_h is None else "a"} checker runs, '
                                                         f'a fresh beartype runs {"none" if rec_f is None else "one"}'))
                 continue
-            if exc_h is not None and type(exc_h).__name__ != type(exc_f).__name__ and 'Violation' not in type(exc_h).__name__:
+            if exc_h is not None and type(exc_h).__name__ != type(exc_f).__name__ and not _is_violation(exc_h):
                 out.findings.append(_finding(name, src, f'{kind}: after the history the query raises {type(exc_h).__name__}, fresh: {type(exc_f).__name__}'))
                 continue
             out.discharged += 1
@@ -350,6 +472,10 @@ def run_case(prop, name, spec, confkw, tier, src):
     return out
 
 
+def _is_violation(e):
+    return 'Violation' in type(e).__name__ or type(e).__name__ in ('VerifError', 'VerifWarning')
+
+
 def _has_str(h):
     import typing
     if isinstance(h, (str, typing.ForwardRef)):
@@ -377,11 +503,12 @@ def replay_c14(p):
     objs, hist = sc(rng)
     hist(objs)
     target = objs['target']
+    tkw = objs.get('confkw') or {}
     if p.get('program') == 'structure':
         for kind in ('tester', 'raiser'):
-            rec_h, exc_h = checker_used(target, kind)
+            rec_h, exc_h = checker_used(target, kind, tkw)
             with fresh_beartype():
-                rec_f, exc_f = checker_used(target, kind)
+                rec_f, exc_f = checker_used(target, kind, tkw)
             if (rec_h is None) != (rec_f is None):
                 return True, p.get('label', 'checker presence differs')
         if objs.get('needs_late') and 'ForwardRef' not in str(objs.get('first')):
@@ -393,10 +520,11 @@ def replay_c14(p):
         PIN.value = p['draw']
         try:
             obj = universe.build(p['obj'])
+            kw = {'conf': _conf(tkw)} if tkw else {}
             try:
                 if p['program'] == 'tester':
-                    return 'accept' if is_bearable(obj, target) else 'reject'
-                die_if_unbearable(obj, target)
+                    return 'accept' if is_bearable(obj, target, **kw) else 'reject'
+                die_if_unbearable(obj, target, **kw)
                 return 'accept'
             except Exception as e:
                 return 'raise:' + type(e).__name__
